@@ -2,4 +2,4 @@ From Coq Require Import List Arith.
 From Coq Require Import ExtrOcamlBasic ExtrOcamlString.
 From OsmtV.Conc Require Import Pool Gen_PoolSync StopFlag Gen_StopFlag.
 Extraction "pool_model.ml" Pool.seq_exec Pool.run Pool.init Pool.bad_b Pool.thr Pool.t_owned Pool.free Pool.ub Gen_PoolSync.locked Gen_PoolSync.discipline.
-Extraction "stop_model.ml" StopFlag.run_script StopFlag.stop_at_poll StopFlag.stop_at_step StopFlag.nostop StopFlag.predict StopFlag.data_race Gen_StopFlag.atomic Gen_StopFlag.lookahead_polls.
+Extraction "stop_model.ml" StopFlag.run_script StopFlag.stop_at_poll StopFlag.stop_at_step StopFlag.nostop StopFlag.predict StopFlag.data_race Gen_StopFlag.atomic Gen_StopFlag.lookahead_polls Gen_StopFlag.poll_after_conflict.
